@@ -25,6 +25,7 @@ def run(chk, rng, quick):
     for name in ROUTINES:
         for _ in range(2 if quick else 12):
             total = int(rng.choice([30, 40]))
+            start = int(rng.choice([0, 12]))          # a continued run: the schedule and the rolls are indexed by the global step
             warm = int(rng.choice([0, 5])) if name != "dqn" else 0
             script = [(int(rng.choice([2, 3, 5])), str(rng.choice(["term", "trunc"]))) for _ in range(3)]
             rolls, calls = [], []
@@ -32,30 +33,34 @@ def run(chk, rng, quick):
 
             def uniform(key, shape=(), *a, _o=orig_uniform, **k):
                 out = _o(key, shape, *a, **k)
-                if tuple(shape) == (total,) and not rolls:
+                if len(tuple(shape)) == 1 and tuple(shape)[0] >= 2 and not rolls:      # the per-step exploration rolls of the call
                     rolls.append(np.asarray(out, dtype=np.float64))
                 return out
             jax.random.uniform = uniform
             mods_ref = {}
             gp = lc._patch_greedy(name, calls, online=lambda: mods_ref["q"])
             try:
-                res = tr.run(name, script, total, warm=warm, seed=int(rng.integers(0, 1000)), extra={"uf": 1, "tuf": int(rng.choice([3, 7])), "mods_ref": mods_ref})
+                res = tr.run(name, script, total, start=start, warm=warm, seed=int(rng.integers(0, 1000)), extra={"uf": 1, "tuf": int(rng.choice([3, 7])), "mods_ref": mods_ref})
             finally:
                 jax.random.uniform = orig_uniform
                 lc._unpatch_greedy(gp)
-            case = {"routine": name, "script": script, "total_timesteps": total, "learning_starts": warm}
+            case = {"routine": name, "script": script, "total_timesteps": total, "learning_starts": warm, "global_step": start}
             chk.case(("c13-loop", str(case)))
             chk.count("loop_runs_" + name)
             if res["raised"] or not rolls:
                 chk.disagree("dqn-loop-observation", {"case": case, "what": "the run raised or drew no per-step uniform rolls", "raised": res["raised"]})
                 continue
             eps = eps_ref(total)
-            sampled, step, gi = False, 0, 0
+            sampled, step, gi = False, start, 0
             for e in res["log"]:
                 if e[0] == "sample":
                     sampled = True
                 elif e[0] == "step":
                     a_env = int(np.asarray(e[2]).reshape(-1)[0])
+                    if step >= len(rolls[0]):
+                        chk.fail(f"C13:train_{name}:exploration-rule", "the loop drew no exploration roll for this step (fewer rolls than steps of the schedule): "
+                                 "its decision cannot follow roll(step) < epsilon(step)", {"case": case, "step": step, "rolls_drawn": len(rolls[0])})
+                        break
                     margin = abs(rolls[0][step] - eps[step])
                     expect_explore = step < warm or rolls[0][step] < eps[step]
                     if margin > 1e-6 and sampled != expect_explore:
